@@ -246,8 +246,15 @@ def rand_word(rng, first, rest, lo, hi):
     return rng.choice(first) + ''.join(rng.choice(rest) for _ in range(n - 1))
 
 
+# characters str.splitlines() breaks at but the formatter must not (fixes 8453eaf / eb70875): ordinary characters
+ODD_BREAKS = ['\f', '\v', '\u2028', '\u0085', '\x1c', '\u2029']
+
+
 def rand_line(rng):
     s = rand_word(rng, TEXT_FIRST, TEXT_REST, 1, 12)
+    if rng.random() < 0.12:
+        k = rng.randint(1, len(s))
+        s = s[:k] + rng.choice(ODD_BREAKS) + s[k:]
     return s
 
 
@@ -390,6 +397,8 @@ def gen(ctx):
         ctx.cover('gen:' + bucket)
         ctx.cover('syntax:' + syntax)
         ctx.cover('indent:%r' % indent)
+        if any(ch in abbr for ch in ODD_BREAKS):
+            ctx.cover('text-with-\\f-\\v-U+2028-U+0085')
         ctx.cover('lines:%s' % ('1' if len(lines) == 1 else '2-5' if len(lines) <= 5 else '6-20' if len(lines) <= 20 else '21+'))
         if has_multiline(stmt):
             ctx.cover('multi-line-text')
@@ -428,7 +437,7 @@ def gen(ctx):
                     continue
                 for attrs in ([], [('title', 'v', '')], [('title', 'a b', '"'), ('data-x', None, ''), ('k', 'e.f', '{')],
                               [('hidden', None, ''), ('t.', None, '')], [('class', None, '')]):
-                    for text in (None, 'one line', 'two\nlines here', 'a\r\n\r\nc'):
+                    for text in (None, 'one line', 'two\nlines here', 'a\r\n\r\nc', 'a\fb\nc\u2028d\x0be', 'x\u0085y'):
                         shapes.append(dict(name=name, id=idv, classes=classes, attrs=attrs, text=text))
     for i, sh in enumerate(shapes):
         for syntax in SYNTAXES:
@@ -460,7 +469,7 @@ def gen(ctx):
 FRAGS = ['div', 'p', 'ul', 'li', 'span', 'a', 'em', 'img', 'br', 'input', 'x', 'h$', '>', '>', '+', '+', '^', '(', ')', '*2', '*3',
          '.c', '.c$', '#i', '[a=b]', '[a="b c"]', "[a='x']", '[a]', '[a.]', '[!a]', '[class="p  q\tr"]', '[class]', '[id]', '.d.e', '{t}',
          '{t $}', '$', '/', '{a\nb}', '{a\r\nbb\nc}', '{x\n}', '{\n}', '[t={x}]', '{${1:x}}', '{${2}}', '[a=${1}]', '[disabled]',
-         '{a${1}\nb${2:q}}', 'label>input', 'input:t', '.', '#', '[class=""]', '{ }', '{ }', '[a="x\ny"]']
+         '{a${1}\nb${2:q}}', '{a\fb\nc}', '{x\u2028y}', '[a="x\u0085y"]', '{p\x0bq\r\nr\x1cs}', 'label>input', 'input:t', '.', '#', '[class=""]', '{ }', '{ }', '[a="x\ny"]']
 OPTS = [{}, {}, {'output.indent': '  '}, {'output.indent': '', 'output.newline': '\r\n'}, {'output.baseIndent': '>>', 'output.indent': '  '},
         {'output.tagCase': 'upper', 'output.attributeCase': 'upper'}, {'output.attributeQuotes': 'single', 'output.compactBoolean': True},
         {'output.selfClosingStyle': 'xml'}, {'output.selfClosingStyle': 'xhtml', 'output.newline': '\n\n'},
